@@ -227,12 +227,16 @@ def c07c(ck, prog):
         facts = guards.facts_at(f, prog, c.bb)
         ct = any(fa.kind == "variant" and fa.allowed in ({"Some"}, {"Continue"}) and fa.steps and fa.steps[-1][0] == "call" and "ContentType" in decision.describe_deep(f, ["c", fa.steps[-1][1].dest], 4) for fa in facts) or \
             any(fa.kind == "variant" and fa.allowed == {"Some"} and "ContentType" in guards.describe_origin(f, fa.steps) for fa in facts)
-        sw = [fa for fa in facts if fa.kind == "boolcall" and fa.truth and fa.call.name in ("starts_with", "eq")]
+        sw = [fa for fa in facts if fa.kind == "boolcall" and fa.truth and fa.call.name in ("starts_with", "eq", "eq_ignore_ascii_case")]
         mime = False
         for fa in sw:
-            a = decision.describe_deep(f, fa.call.args[0], 5)
-            b = decision.describe_deep(f, fa.call.args[1], 3)
-            if "ContentType" in a and "MIME_TYPE" in b + str(fa.call.args[1]) + str(f.origin(fa.call.args[1])):
+            a = decision.describe_deep(f, fa.call.args[0], 6)
+            b = decision.describe_deep(f, fa.call.args[1], 4) + str(f.origin(fa.call.args[1]))
+            if "ContentType" in a and "MIME_TYPE" in b:
+                if fa.call.name == "eq_ignore_ascii_case":
+                    # a case-insensitive prefix test must compare exactly MIME_TYPE.len() bytes of the header
+                    if not (re.search(r"(index|get|get_unchecked|split_at)\(", a) and "MIME_TYPE" in a):
+                        continue
                 mime = True
         pay = any(fa.kind == "variant" and fa.allowed == {"Some"} and "payload" in guards.describe_origin(f, fa.steps) for fa in facts)
         ck.ob(R, "gate:content-type-present", ct, f.loc(c.sp), "" if ct else "from_body runs without a Content-Type header being present", how="Some edge of headers.ContentType()")
